@@ -153,6 +153,13 @@ fn tail_rec_param_name(name: &str) -> String {
   format!("_tailrec_param_{name}")
 }
 
+/// Whether `name` is the receiver / closure context parameter `_this`, possibly renamed by the
+/// rewrite in this file.
+pub(super) fn is_this_parameter(heap: &Heap, name: &PStr) -> bool {
+  PStr::UNDERSCORE_THIS.eq(name)
+    || name.as_str(heap) == tail_rec_param_name(PStr::UNDERSCORE_THIS.as_str(heap))
+}
+
 fn optimize_function_by_tailrec_rewrite_aux(
   heap: &mut Heap,
   function: Function,
